@@ -135,7 +135,7 @@ def generate(rng, tier):
                                        'parse_buf 0 ' + hx(b't x { a = 1 }\nt x { a = 2 in q { } }\ninclude("inc.conf")\nt x { }\n'),
                                        'parse_buf 0 ' + hx(b'include("inc.conf")\nt y { }\nt y { include("inc.conf") }\n'), 'lookup 0 ' + hx(b'inc.conf')]),
         # a call with more arguments than any stack frame could hold (the argument vector lives on the heap)
-        ('fn-many-args-small-stack!', ['stacklimit 64', 'parse_buf 0 ' + hx(b'fn(' + b'a,' * 24000 + b'b)\n'), 'parse_buf 0 ' + hx(b'sec { in x { s = y } }\n')]),
+        ('fn-many-args-small-stack!', ['needplain', 'stacklimit 1024', 'parse_buf 0 ' + hx(b'fn(' + b'a,' * 200000 + b'b)\n'), 'parse_buf 0 ' + hx(b'sec { in x { s = y } }\n')]),
         ('null-buffer', ['parse_buf 0 -']),
         ('empty-buffer', ['parse_buf 0 .']),
     ]
@@ -154,6 +154,17 @@ def generate(rng, tier):
             yield Scn('sp%d-%s' % (n, name.rstrip('!')), lines, meta)
 
 
+EXTRA_VARIANTS = ['plain']      # inputs of 10^5 tokens: every realloc() copies under AddressSanitizer, so they run on the plain build
+
+
+def extra_select(scn, variant):
+    return any(l == 'needplain' for l in scn.lines)
+
+
+def oracle_variant(scn, il, variant):
+    return oracle(scn, il)
+
+
 def nontrivial(scn, il):
     first = scn.meta['first']
     body = il[:-1] if il and il[-1].startswith('--- ') else il
@@ -166,6 +177,8 @@ def oracle(scn, il):
         return [('no-result', scn.id + ': no result')]
     tr = il[-1]
     body = il[:-1] if tr.startswith('--- ') else il
+    if 'needplain rc=skip' in body and 'status=exit:0' in tr:
+        return []          # a scenario for the plain build, skipped by the instrumented one (it runs under EXTRA_VARIANTS)
     cls = scn.meta['class'].split('/')[0]
     if 'status=exit:0' not in tr or 'san=-' not in tr:
         m = re.search(r'status=(\S+) san=(\S+)', tr)
